@@ -105,13 +105,23 @@ func f32bits(x float64) uint32 { return math.Float32bits(float32(x)) }
 
 // checkBinaryList runs SaveSTL, LoadSTL and ToSTL on the list and compares with
 // the independent byte parser. dir is a scratch directory.
-func checkBinaryList(dir string, list []tri, pattern []int, st *stats) *failure {
+// stale >= 0: both output paths already hold a file of that many bytes (a previous, possibly larger,
+// render written to the same name); stale < 0: the paths do not exist.
+func checkBinaryList(dir string, list []tri, pattern []int, st *stats, stale int) *failure {
 	n := len(list)
 	mesh := toMesh(list)
 	pSave := filepath.Join(dir, "save.stl")
 	pStream := filepath.Join(dir, "stream.stl")
 	os.Remove(pSave)
 	os.Remove(pStream)
+	if stale >= 0 {
+		junk := make([]byte, stale)
+		for i := range junk {
+			junk[i] = 0xAA
+		}
+		os.WriteFile(pSave, junk, 0o644)
+		os.WriteFile(pStream, junk, 0o644)
+	}
 
 	// --- batch writer, bytes on disk
 	if err := render.SaveSTL(pSave, mesh); err != nil {
@@ -514,7 +524,18 @@ func TestBinaryRoundTrip(t *testing.T) {
 			}
 		}
 		var st stats
-		f := checkBinaryList(dir, list, pattern, &st)
+		// the output path may already hold an older file: absent, empty, shorter, longer
+		stale := -1
+		switch rapid.IntRange(0, 5).Draw(t, "existing-file") {
+		case 1:
+			stale = 0
+		case 2:
+			stale = rapid.IntRange(1, 84+50*len(list)).Draw(t, "existing-shorter")
+		case 3, 4:
+			stale = 84 + 50*len(list) + rapid.IntRange(1, 5000).Draw(t, "existing-longer")
+		}
+		rec.Add(fmt.Sprintf("existing-file:%v", map[bool]string{true: "none", false: "present"}[stale < 0]), 1)
+		f := checkBinaryList(dir, list, pattern, &st, stale)
 		nt := len(list) >= 1 && inexact >= 1
 		rec.Case(nt, listKey(list), "binary:n="+nc, "binary:batches="+mode)
 		for k, v := range hist {
@@ -753,7 +774,11 @@ func TestRegress(t *testing.T) {
 			rec.Case(true, "regress:"+c.Name, "regress:ascii")
 		} else {
 			var st stats
-			f = checkBinaryList(dir, c.List, c.Pattern, &st)
+			f = checkBinaryList(dir, c.List, c.Pattern, &st, -1)
+			if f == nil {
+				// and over an existing, longer file
+				f = checkBinaryList(dir, c.List, c.Pattern, &st, 84+50*len(c.List)+4500)
+			}
 			rec.Case(true, "regress:"+c.Name, "regress:binary")
 		}
 		if f != nil {
